@@ -91,6 +91,8 @@ pub mod site {
     pub const SPIN_INIT: usize = 100;
     /// spin site in `TreeBin::contended_lock`
     pub const SPIN_CONTENDED: usize = 101;
+    /// spin site in `HashMap::clear` (waiting for a resize to be published)
+    pub const SPIN_CLEAR: usize = 102;
 }
 
 /// Installs (or removes) the harness callback.
